@@ -16,6 +16,7 @@ import DiffxVerif.Properties.C01Run
 #print axioms Diffx.C01.C01_sim_run
 #print axioms Diffx.C01.C01_run
 #print axioms Diffx.C01.C01_run_length
+#print axioms Diffx.C01.C01_accepted_indent_nonneg
 #print axioms Diffx.C01.runProg_ok
 #print axioms Diffx.C01.laws1
 #print axioms Diffx.C01.laws4
